@@ -31,6 +31,7 @@ def summary(out):
 
 def main():
     src, sid, prop = sys.argv[1], sys.argv[2], sys.argv[3]
+    demo_cmd = sys.argv[4] if len(sys.argv) > 4 else None     # extra command when the demo needs non-default features
     seed = os.path.join(src, "SEED")
     for f in ("patch.diff", "demo.diff", "README.md"):
         if not os.path.exists(os.path.join(seed, f)):
@@ -52,6 +53,9 @@ def main():
         t0 = time.time()
         rc0, out0 = sh("cargo test --workspace --offline --no-fail-fast 2>&1", cwd=wt, env=env)
         res["without_change"] = {"exit": rc0, "failing": sorted(failing_tests(out0)), "results": summary(out0), "wall_s": round(time.time() - t0)}
+        if demo_cmd:
+            rcd0, outd0 = sh(demo_cmd + " 2>&1", cwd=wt, env=env)
+            res["without_change"]["demo_cmd"] = {"cmd": demo_cmd, "exit": rcd0, "failing": sorted(failing_tests(outd0)), "results": summary(outd0)}
         rc, out = sh(["git", "apply", "--whitespace=nowarn", os.path.join(seed, "patch.diff")], cwd=wt)
         if rc:
             print("patch.diff does not apply:", out)
@@ -59,10 +63,17 @@ def main():
         t0 = time.time()
         rc1, out1 = sh("cargo test --workspace --offline --no-fail-fast 2>&1", cwd=wt, env=env)
         res["with_change"] = {"exit": rc1, "failing": sorted(failing_tests(out1)), "results": summary(out1), "wall_s": round(time.time() - t0)}
+        if demo_cmd:
+            rcd1, outd1 = sh(demo_cmd + " 2>&1", cwd=wt, env=env)
+            res["with_change"]["demo_cmd"] = {"cmd": demo_cmd, "exit": rcd1, "failing": sorted(failing_tests(outd1)), "results": summary(outd1)}
         demo_files = re.findall(r"^\+\+\+ b/(\S+)", open(os.path.join(seed, "demo.diff")).read(), re.M)
         res["demo_files"] = demo_files
         ok_without = rc0 == 0 and not res["without_change"]["failing"]
         ok_with = rc1 != 0 and res["with_change"]["failing"]
+        if demo_cmd:
+            # the default-feature suite (existing tests + demo) passes either way; the demo command decides
+            ok_without = ok_without and rcd0 == 0
+            ok_with = rc1 == 0 and rcd1 != 0 and bool(res["with_change"]["demo_cmd"]["failing"])
         res["confirmed"] = bool(ok_without and ok_with)
         print(json.dumps(res, indent=1))
         if not res["confirmed"]:
